@@ -22,6 +22,7 @@ var suitesByProp = map[string][]func(*runner, *rng){
 	"C15": {suiteLin},
 	"C01": {suiteSrt},
 	"C17": {suiteSchedules},
+	"C19": {suiteDeterminism},
 	"C18": {suiteFaults},
 }
 
@@ -36,10 +37,16 @@ func main() {
 	replayDir := flag.String("replays", "replays", "directory for replay files")
 	known := flag.String("known", "known_findings.json", "known findings file")
 	replay := flag.String("replay", "", "replay file: run only the recorded case")
+	child := flag.String("child", "", "internal: child-process mode")
+	childN := flag.Int("n", 0, "internal: number of lists in child mode")
 	flag.StringVar(&repoDir, "repo", "/repo", "repository under test")
 	flag.StringVar(&buildDir, "build", ".build", "scratch build directory")
 	flag.Parse()
 	log.SetOutput(io.Discard) // the library logs through the standard logger
+	if *child == "c19" {
+		c19Child(*seed, *childN)
+		return
+	}
 	suites, ok := suitesByProp[*prop]
 	if !ok {
 		fatal("no suites for property %q", *prop)
